@@ -361,6 +361,19 @@ class _CommonFile:
             raise ValueError(f"{param} contains invalid characters: {value!r}")
         return value
 
+    def _encode_hash(self, hash):
+        """convert hash to internal representation (bytes).
+
+        :raises ValueError:
+            if the hash could not be read back from the line it would be written to
+            (it contains ``:`` or a newline, or ends with whitespace).
+        """
+        if isinstance(hash, str):
+            hash = hash.encode(self.encoding)
+        if _BCOLON in hash or b"\n" in hash or hash != hash.rstrip():
+            raise ValueError("hash contains characters which cannot be stored in the file")
+        return hash
+
     def _decode_field(self, value):
         """decode field from internal representation to format
         returns by users() method, etc.
@@ -743,8 +756,7 @@ class HtpasswdFile(_CommonFile):
         .. versionadded:: 1.7
         """
         # assert self.context.identify(hash), "unrecognized hash format"
-        if isinstance(hash, str):
-            hash = hash.encode(self.encoding)
+        hash = self._encode_hash(hash)
         user = self._encode_user(user)
         existing = self._set_record(user, hash)
         self._autosave()
@@ -1054,8 +1066,7 @@ class HtdigestFile(_CommonFile):
             # called w/ two args - (user, hash), use default realm
             realm, hash = None, realm
         # assert htdigest.identify(hash), "unrecognized hash format"
-        if isinstance(hash, str):
-            hash = hash.encode(self.encoding)
+        hash = self._encode_hash(hash)
         key = self._encode_key(user, realm)
         existing = self._set_record(key, hash)
         self._autosave()
